@@ -20,7 +20,7 @@ ASSUMPTIONS = ["the follower's net effect on nested lambdas is modelled function
 
 
 def run(ctx):
-    typed.run_cases(ctx, ctx.n(6, 120), 60, ID)
+    typed.run_cases(ctx, ctx.n(30, 200), 60, ID)
 
 
 def replay(ctx, case):
